@@ -54,6 +54,14 @@ type intStringer int
 
 func (d intStringer) String() string { return "d" + itoa(int(d)) }
 
+// strStringer: a named STRING type with a String method of its own: the method's text counts, not the underlying string.
+type strStringer string
+
+func (s strStringer) String() string { return "attr:" + string(s) }
+
+// plainNamed: a named string type WITHOUT a String method (not a string, not a stringer).
+type plainNamed string
+
 // sliceOp: a user-defined operator whose Go type cannot be compared with == (a slice).
 type sliceOp []string
 
@@ -462,6 +470,8 @@ type Node struct {
 	Delim    string     `json:"delim,omitempty"`
 	Encap    [][]string `json:"encap,omitempty"`
 	Wrap     int        `json:"wrap,omitempty"`
+	OptForm  int        `json:"optform,omitempty"`  // how the Boolean options are brought to their state: 0 Set(true); 1 toggle; 2 Set(false)+toggle; 3 Set(true)+toggle+toggle; 4 Set(opposite)+toggle
+	PresPol  bool       `json:"prespol,omitempty"`  // a presentation closure (non-BASIC stacks, Conditions): changes String() only
 	ValidRej bool       `json:"validrej,omitempty"` // a validity closure that REJECTS the node (stacks and Conditions), installed after assembly
 	EqPol    int        `json:"eqpol,omitempty"`    // equality closure on this node: 1 accepts everything, 2 rejects everything (stacks and Conditions)
 	Amb      int        `json:"amb,omitempty"`      // ambient, semantically neutral settings (AmbXxx bits), applied after the elements are in
@@ -537,6 +547,69 @@ func wrapCond(c stackage.Condition, wrap int) any {
 		return &a
 	}
 	return c
+}
+
+// unwrapStack / unwrapCond: the harness's OWN view of which of its values are Stacks / Conditions
+// (a Go type switch over exactly the wrap forms Build produces). Oracles use these rather than the
+// library's ConvertStack / ConvertCondition wherever the conversion itself is part of what is checked.
+func unwrapStack(v any) (stackage.Stack, bool) {
+	switch tv := v.(type) {
+	case stackage.Stack:
+		return tv, tv.IsInit()
+	case *stackage.Stack:
+		if tv != nil {
+			return *tv, tv.IsInit()
+		}
+	case MyStack:
+		return stackage.Stack(tv), stackage.Stack(tv).IsInit()
+	case MyStackS:
+		return stackage.Stack(tv), stackage.Stack(tv).IsInit()
+	case MyStackLoud:
+		return stackage.Stack(tv), stackage.Stack(tv).IsInit()
+	case *MyStack:
+		if tv != nil {
+			return stackage.Stack(*tv), stackage.Stack(*tv).IsInit()
+		}
+	case *MyStackS:
+		if tv != nil {
+			return stackage.Stack(*tv), stackage.Stack(*tv).IsInit()
+		}
+	case *MyStackLoud:
+		if tv != nil {
+			return stackage.Stack(*tv), stackage.Stack(*tv).IsInit()
+		}
+	}
+	return stackage.Stack{}, false
+}
+
+func unwrapCond(v any) (stackage.Condition, bool) {
+	switch tv := v.(type) {
+	case stackage.Condition:
+		return tv, tv.IsInit()
+	case *stackage.Condition:
+		if tv != nil {
+			return *tv, tv.IsInit()
+		}
+	case MyCond:
+		return stackage.Condition(tv), stackage.Condition(tv).IsInit()
+	case MyCondS:
+		return stackage.Condition(tv), stackage.Condition(tv).IsInit()
+	case MyCondLoud:
+		return stackage.Condition(tv), stackage.Condition(tv).IsInit()
+	case *MyCond:
+		if tv != nil {
+			return stackage.Condition(*tv), stackage.Condition(*tv).IsInit()
+		}
+	case *MyCondS:
+		if tv != nil {
+			return stackage.Condition(*tv), stackage.Condition(*tv).IsInit()
+		}
+	case *MyCondLoud:
+		if tv != nil {
+			return stackage.Condition(*tv), stackage.Condition(*tv).IsInit()
+		}
+	}
+	return stackage.Condition{}, false
 }
 
 // BuildOpts tunes Build.
@@ -648,29 +721,49 @@ func drawAmbient(t *rapid.T, allowPush bool) int {
 	return a
 }
 
+// setTri brings a Boolean option (off by default) to `want` through one of several call histories
+// that the documentation declares equivalent: true sets, false clears, no argument inverts.
+func setTri[T any](set func(...bool) T, want bool, form int) {
+	switch form {
+	case 1:
+		if want {
+			set() // invert the default
+		}
+	case 2:
+		set(false)
+		if want {
+			set()
+		}
+	case 3:
+		if want {
+			set(true)
+			set()
+			set()
+		} else {
+			set(true)
+			set()
+		}
+	case 4:
+		set(!want)
+		set()
+	default:
+		if want {
+			set(true)
+		}
+	}
+}
+
 func buildStack(n Node, o BuildOpts) stackage.Stack {
 	s := newStackOfKind(n.Kind, n.Cap)
 	if n.FIFO {
 		s.SetFIFO(true)
 	}
-	if n.Paren {
-		s.SetParen(true)
-	}
-	if n.Fold {
-		s.SetFold(true)
-	}
-	if n.NoPad {
-		s.SetNoPadding(true)
-	}
-	if n.LeadOnce {
-		s.SetLeadOnce(true)
-	}
-	if n.NegIdx {
-		s.SetNegativeIndices(true)
-	}
-	if n.FwdIdx {
-		s.SetForwardIndices(true)
-	}
+	setTri(s.SetParen, n.Paren, n.OptForm)
+	setTri(s.SetFold, n.Fold, n.OptForm)
+	setTri(s.SetNoPadding, n.NoPad, n.OptForm)
+	setTri(s.SetLeadOnce, n.LeadOnce, n.OptForm)
+	setTri(s.SetNegativeIndices, n.NegIdx, n.OptForm)
+	setTri(s.SetForwardIndices, n.FwdIdx, n.OptForm)
 	if n.Symbol != "" {
 		s.SetSymbol(n.Symbol)
 	}
@@ -699,6 +792,9 @@ func buildStack(n Node, o BuildOpts) stackage.Stack {
 	if n.ValidRej {
 		s.SetValidityPolicy(func(...any) error { return errValidityRejects })
 	}
+	if n.PresPol && n.Kind != "BASIC" {
+		s.SetPresentationPolicy(func(...any) string { return "<presented>" })
+	}
 	if n.ReadOnly {
 		s.SetReadOnly(true)
 	}
@@ -715,12 +811,8 @@ func buildCond(n Node, o BuildOpts) stackage.Condition {
 	if n.Expr != nil {
 		c.SetExpression(BuildWith(*n.Expr, o))
 	}
-	if n.Paren {
-		c.SetParen(true)
-	}
-	if n.NoPad {
-		c.SetNoPadding(true)
-	}
+	setTri(c.SetParen, n.Paren, n.OptForm)
+	setTri(c.SetNoPadding, n.NoPad, n.OptForm)
 	for _, e := range n.Encap {
 		c.SetEncap(append([]string{}, e...))
 	}
@@ -732,6 +824,9 @@ func buildCond(n Node, o BuildOpts) stackage.Condition {
 	}
 	if n.ValidRej {
 		c.SetValidityPolicy(func(...any) error { return errValidityRejects })
+	}
+	if n.PresPol {
+		c.SetPresentationPolicy(func(...any) string { return "<presented>" })
 	}
 	if n.ReadOnly {
 		c.SetReadOnly(true)
